@@ -154,8 +154,8 @@ store (econf_file *ef, const char *group, const char *key,
     }
 
     char *content = ef->file_entry[ef->length-1].value;
-    int ret = asprintf(&(ef->file_entry[ef->length-1].value), "%s\n%s", content,
-	     value);
+    int ret = asprintf(&(ef->file_entry[ef->length-1].value), "%s\n%s",
+		       content ? content : "", value);
     if(ret<0)
       return ECONF_NOMEM;
     free(content);
